@@ -104,8 +104,19 @@ void verif_sched_done(void)
 	sched_id = -1;
 }
 
+/* free-running mode: an optional injected delay (a legal preemption) at one scheduling point of one worker,
+   VERIF_DELAY="point,rid,microseconds,one_in" */
+static int delay_point = -1, delay_rid, delay_us, delay_one_in = 1;
+static _Atomic uint64_t delay_rng = 88172645463325252ULL;
+
 void verif_yield(int point)
 {
+	if(point == delay_point && (int)rid == delay_rid) {
+		uint64_t x = atomic_fetch_add(&delay_rng, 0x9E3779B97F4A7C15ULL);
+		x ^= x >> 29; x *= 0xBF58476D1CE4E5B9ULL; x ^= x >> 32;
+		if(x % (uint64_t)delay_one_in == 0)
+			usleep((useconds_t)delay_us);
+	}
 	if(!sched_on || sched_id < 0)
 		return;
 	if(sched_log) fprintf(sched_log, "%d %d\n", sched_id, point);
@@ -184,6 +195,9 @@ void verif_trace_setup(const char *path, uint64_t mask, unsigned watchdog_s)
 {
 	dump_path = path;
 	verif_trace_mask = mask;
+	const char *dl = getenv("VERIF_DELAY");
+	if(dl)
+		sscanf(dl, "%d,%d,%d,%d", &delay_point, &delay_rid, &delay_us, &delay_one_in);
 	if(watchdog_s) {
 		wd_seconds = watchdog_s;
 		pthread_t t;
